@@ -43,6 +43,7 @@ class C12(core.Check):
             '-2^(w-1)-1 for numeric arguments (aligned / packed), numeric_bytecode codes, indirect-register offsets and '
             'relative offsets. accept iff all constraints hold; accepted bytes must equal the reference encoding. '
             'distinct_nontrivial = distinct (constraint kind, boundary position, width class) tuples.')
+    rule = rule + ' ' + 'A fifth of the cases run again with -n and with -n -p (no image asked for).'
     assumptions = ('a field of n bits accepts -2^(n-1) <= v < 2^n ("signed-or-unsigned range")',
                    'sliced addresses are configured with match_address_msb (slice_lsb alone is not constrained by the statement)')
     chunk = 1500
